@@ -96,7 +96,7 @@ EXTRA = {
  "C04": "documents under size limits of 1 and 3 bytes",
  "C05": "recovery / injected-error histories over every single mutation of every small document",
  "C06": "the second derived specification W (placeholder paths, a global master); buffered sets on the unmutated documents; grown-buffer documents x capacities",
- "C07": "specification W; one unknown-id element at every position (tolerated); every marker width; every tolerance switch; buffered sets",
+ "C07": "specification W; one unknown-id element at every position (tolerated); every marker width; every tolerance switch; buffered sets; a source pausing at a tag boundary",
  "C08": "specification W (a master nested in itself); completeness of the buffered parse up to an incomplete buffered master",
  "C09": "one rejected call at every position; payload class x explicit width; width rejections judged with the writer-produced content length",
  "C10": "a second alphabet (explicit 1-byte size fields, raw tag through write(), Fulls ending their own master) with at most one rejected call per history",
@@ -106,7 +106,7 @@ EXTRA = {
  "C14": "one buffered master id; 16-40-byte junk across read boundaries; tags larger than the buffer behind the junk; a size limit equal to the largest declared size",
  "C16": "every explicit size width; values read back through the real iterator under short reads",
  "C17": "staged sources with stalls and recoveries; the limit lowered between two calls; limits 0 and 1; masters whose size is too small",
- "C18": "8- and 5-byte ids at parent positions; reversed variant order; ambiguous name concatenations",
+ "C18": "8- and 5-byte ids at parent positions; reversed variant order; ambiguous name concatenations; placeholders with equal bounds",
  "C19": "a size-window sweep over 1-5 open masters; Fulls with Start/End children; Ends carrying options",
  "C20": "model-independent constraints on the known finding (shape of the deviation; schedules on which the source stays ahead of the parser must match outright); the calls after the first error",
 }
